@@ -125,10 +125,19 @@ private:
             }
             else if (*it == '\r')
             {
+                buffers_iterator cr = it;
+
                 it++;
 
+                /* The CR is the last byte received so far, the LF of a CRLF
+                 * pair may follow in the next segment. Report a partial match
+                 * to read more data and continue from the CR.
+                 */
+                if (it == end)
+                    return std::make_pair(cr, false);
+
                 // Handle CRLF case.
-                if (it != end && *it == '\n')
+                if (*it == '\n')
                     it++;
 
                 return std::make_pair(it, true);
